@@ -117,6 +117,7 @@ def run_property(pid, tier="quick", seed=0, verbose=False):
         for (oid, ok, where, lineno) in fn(REPO):
             statics.append(StaticObligation(f"{pid}.{oid}", ok, where, lineno))
     timeout_ms = 60000 if tier == "thorough" else 30000
+    os.environ["VERIF_DEEP"] = "1" if tier == "thorough" else "0"       # thorough: contracts enumerate further cases
     findings = [f for f in load_findings() if f["property"] == pid]
     reports, results, prove_s = prove(contracts, reg, REPO, timeout_ms=timeout_ms, statics=statics,
                                       cvc5_all=(tier == "thorough"),
@@ -147,7 +148,8 @@ def run_property(pid, tier="quick", seed=0, verbose=False):
     failed = [d for d in results if d["verdict"] != "discharged"]
     unsupported = [r for r in reports if r.status in ("unsupported", "missing", "vacuous", "engine_error")]
     present = {d["oid"] for d in results}
-    dropped = sorted(o for o in lock if o not in present and not any(function_of(o) == r.name for r in unsupported))
+    dropped = sorted(o for o in lock if o not in present and not any(function_of(o) == r.name for r in unsupported)
+                     and not (lock[o] == "deep" and tier != "thorough"))
 
     # ---- bounded stand-ins / CPython cross-check (focus: functions whose proof did not go through)
     focus = {function_of(d["oid"]) for d in failed} | {r.name for r in unsupported}
@@ -295,12 +297,21 @@ def write_lock(pids):
         for fn in spec.get("statics", []):
             for (oid, ok, where, lineno) in fn(REPO):
                 statics.append(StaticObligation(f"{pid}.{oid}", ok, where, lineno))
+        os.environ["VERIF_DEEP"] = "0"
         reports, results, _ = prove(contracts, reg, REPO, timeout_ms=60000, statics=statics, lemmas=spec.get("lemmas", []))
         entry = {}
         for d in results:
             if d["verdict"] == "discharged":
                 entry[d["oid"]] = entry.get(d["oid"], 0) + 1
-        lock[pid] = dict(sorted(entry.items()))
         bad = [d["oid"] for d in results if d["verdict"] != "discharged"]
+        # the further cases of the thorough tier: their ids are locked too, marked "deep" (absent from quick runs by design)
+        os.environ["VERIF_DEEP"] = "1"
+        _, results2, _ = prove(contracts, build_registry(), REPO, timeout_ms=60000, statics=(), lemmas=())
+        os.environ["VERIF_DEEP"] = "0"
+        for d in results2:
+            if d["verdict"] == "discharged" and d["oid"] not in entry:
+                entry[d["oid"]] = "deep"
+        bad += [d["oid"] for d in results2 if d["verdict"] != "discharged" and d["oid"] not in bad]
+        lock[pid] = dict(sorted(entry.items()))
         print(f"{pid}: locked {len(entry)} obligation ids; not discharged: {bad}")
     json.dump(lock, open(LOCK, "w"), indent=1, sort_keys=True)
